@@ -4,7 +4,7 @@ import colorgen
 
 CLAIMED = True
 LEVEL = 'proof'
-LEVEL_TEXT = ('Proof: 26 Coq theorems. convert_channel is modelled exactly as written (24-bit reciprocal, constants regenerated from '
+LEVEL_TEXT = ('Proof: 32 Coq theorems. convert_channel is modelled exactly as written (24-bit reciprocal, constants regenerated from '
               'conversion.rs): for all 64 (from bits, to bits) pairs in 1..8 and every value it returns the representable value nearest to '
               'the exactly scaled one (2*|r*from_max - v*to_max| <= from_max), is monotone, maps 0 to 0 and max to max, widen-then-narrow is '
               'the identity, and no intermediate leaves u32 (decided by vm_compute; monotonicity derived). Whole colours, quantified over the '
